@@ -5,7 +5,7 @@ import math
 import numpy as np
 
 FLAVORS = ["plain", "plain", "plain", "uniform_scale", "sensor_scale", "const_sensor", "dup_rows",
-           "corr", "int", "float32", "fortran", "strided", "readonly", "baseline", "colslice", "rowstep"]
+           "corr", "int", "float32", "fortran", "strided", "readonly", "baseline", "colslice", "rowstep", "idle", "int_translate", "sensor_range"]
 
 
 def regime_series(rng, T, N, n_reg=2, seg=20, scale=1.0, weak=False):
@@ -37,6 +37,10 @@ def make_series(d):
         x = x * float(d.get("scale", 1.0))
     elif fl == "sensor_scale":
         x = x * (10.0 ** rng.uniform(-float(d.get("logscale", 6)), float(d.get("logscale", 6)), size=N))
+    elif fl == "sensor_range":
+        # sensors in very different units: magnitudes spread evenly over nine to twelve decades inside one series
+        half = float(rng.choice([4.5, 5.0, 6.0]))
+        x = x * rng.permutation(10.0 ** np.linspace(-half, half, N) if N > 1 else np.ones(1))
     elif fl == "baseline":
         # every sensor rides on a large constant level compared with its fluctuation (|mean|/std 1e4..1e7)
         x = x + (10.0 ** rng.uniform(4, 7, size=N)) * rng.choice([-1.0, 1.0], size=N)
@@ -67,6 +71,18 @@ def make_series(d):
         tall = np.full((2 * T, N), -77.0)
         tall[::2] = x
         x = tall[::2]
+    elif fl == "idle":
+        # the recording idles at a constant level for stretches of 35-90 samples (identical consecutive windows, identical cost rows)
+        t = int(rng.integers(0, 10))
+        while t < T - 1:
+            L = int(rng.integers(35, 90))
+            x[t:t + L] = x[t]
+            t += L + int(rng.integers(5, 40))
+    elif fl == "int_translate":
+        # integer-valued data whose second half is the first half moved by a constant: regimes that are exact translates of each other
+        x = np.round(x * 3)
+        h = T // 2
+        x[h:2 * h] = x[:h] + 16.0
     elif fl == "readonly":
         x = np.array(x)
         x.flags.writeable = False
